@@ -52,7 +52,7 @@ fn check_ctx(r: &mut Report, o: &O, what: &dyn Fn() -> String) {
 }
 
 pub fn standin_orswot_iter(r: &mut Report) {
-    r.target = "Orswot::iter: yields each present member once with (replica clock, member witness clock)".into();
+    r.target = "Orswot::iter (verified against the Map-adapter shim; this exercises the shim on the real crate): yields each present member once with (replica clock, member witness clock)".into();
     r.bound = "all states reached by <= 3 generated ops over members {0,1,2}, actors {1,2}".into();
     let mut seen = 0;
     gen_programs(3, &mut |reps: &Vec<O>, _h: &Vec<Vec<Op<u8, u8>>>, desc: &String| {
